@@ -822,7 +822,8 @@ type Exec struct {
 	upl    map[int]*parkedOp
 	cps    map[int]*parkedOp
 	broken string
-	rerun  bool // this Exec re-runs a case to confirm a stall: full watchdogs
+	multi  *multi // non-nil: the case is a multi-destination case (multi.go)
+	rerun  bool   // this Exec re-runs a case to confirm a stall: full watchdogs
 
 	// LastDump is the goroutine dump taken when a watchdog of this Exec last fired.
 	LastDump string
@@ -842,6 +843,9 @@ func newExecState() *Exec {
 // Close makes the current generation inert (leaked loop goroutines of live handlers only ever see errors).
 func (e *Exec) Close() {
 	e.g.kill()
+	if e.multi != nil {
+		e.multi.close()
+	}
 	// a live handler's syncLoop goroutine never ends and keeps its (now inert) wrappers and through
 	// them this world reachable: drop the blob data
 	for _, m := range []*mapStore{e.w.src, e.w.dst} {
@@ -968,10 +972,26 @@ func (e *Exec) Step(ws []string) string {
 	if len(ws) == 0 {
 		return "bad-op"
 	}
+	if e.multi != nil {
+		return e.multi.step(e, ws)
+	}
 	if e.live {
 		return e.stepLive(ws)
 	}
 	switch ws[0] {
+	case "multi":
+		// multi N step|live (first op only): N sync handlers with separate queues and destinations
+		// on ONE source storage
+		if len(ws) != 3 || e.nops != 1 || (ws[1] != "2" && ws[1] != "3") || (ws[2] != "step" && ws[2] != "live") {
+			return "bad-op"
+		}
+		e.g.kill()
+		e.multi = newMulti(int(ws[1][0]-'0'), ws[2] == "live")
+		if err := e.multi.start(); err != nil {
+			e.broken = err.Error()
+			return "broken:" + e.broken
+		}
+		return "ok"
 	case "live":
 		if len(ws) != 1 || e.nops != 1 {
 			return "bad-op"
@@ -1195,8 +1215,9 @@ func (e *Exec) Step(ws []string) string {
 
 // runSyncLoop is `for sh.runSync(…) > 0 {}` on the real handler, under a watchdog: a runSync that does
 // not come back (e.g. it waits for results of workers that are gone) yields "stalled".
-func (e *Exec) runSyncLoop() string {
-	sh := e.g.sh
+func (e *Exec) runSyncLoop() string { return e.runSyncLoopOn(e.g.sh) }
+
+func (e *Exec) runSyncLoopOn(sh *server.SyncHandler) string {
 	done := make(chan int, 1)
 	go func() {
 		total := 0
@@ -1217,7 +1238,7 @@ func (e *Exec) runSyncLoop() string {
 	case <-t.C:
 		e.LastDump = stackDump(6000)
 		e.broken = "stalled"
-		need, _ := e.pending()
+		need, _ := sh.VerifPending()
 		return fmt.Sprintf("stalled need=%d", len(need))
 	}
 }
